@@ -49,10 +49,13 @@ fn exact_times(t: &Timing) -> (Vec<f32>, Vec<f32>) {
 }
 
 fn check_eval(spec: &TlSpec, rt: &RefTl, tl: &PTimeline, start: Option<&P>, t: f32, init: &P, rank: u64, acc: &mut Acc) -> P {
-    let got = eval_real(tl, t, init);
+    acc.evals += 1;
+    let Some(got) = try_eval_real(tl, t, init) else {
+        acc.sink.add("panic-in-update", rank, || (format!("t={t}: Timeline::update panicked"), case_json(spec, start, t, init)));
+        return init.clone();
+    };
     let ph = ref_phase(&rt.timing, t);
     let want = rt.eval_phase(&ph, start);
-    acc.evals += 1;
     let q = ph.pos();
     let mut res: Result<(), String> = Ok(());
     // exact where the position coincides with a (single) keyframe of the property, loose elsewhere
@@ -63,7 +66,7 @@ fn check_eval(spec: &TlSpec, rt: &RefTl, tl: &PTimeline, start: Option<&P>, t: f
             break;
         }
         match w {
-            RV::Val(wv) if rp.frames.iter().filter(|f| f.0 == q).count() == 1 => {
+            RV::Val(wv) if rp.frames.partition_point(|f| f.0 <= q) - rp.frames.partition_point(|f| f.0 < q) == 1 => {
                 acc.exact_checks += 1;
                 res = compare_tight(name, g, wv, int, 4.0);
             }
@@ -132,6 +135,61 @@ fn nondyadic_end(acc: &mut Acc) {
             }
         }
     }
+}
+
+
+/// Wide (2^j+1 keyframes) and tall (all subsets of a 9-point grid) families of common.rs, evaluated at
+/// exactly every keyframe position (forward, reverse and repeated pass).
+fn wide_tall_pass(thorough: bool) -> Acc {
+    let js: Vec<u32> = if thorough { (1..=17).collect() } else { vec![4, 8, 16] };
+    let timings = wide_timings();
+    let init = P::sentinel();
+    let vs = vstar();
+    let mut items: Vec<(u32, u8, usize)> = vec![];
+    for &j in &js {
+        for pattern in 0..2u8 {
+            for ti in 0..2 {
+                items.push((j, pattern, ti));
+            }
+        }
+    }
+    items.push((0, 0, 0));
+    items.push((0, 0, 1));
+    par_fold(
+        items.len(),
+        Acc::default,
+        |i, acc| {
+            let (j, pattern, ti) = items[i];
+            let th = &timings[ti];
+            let one = |spec: &TlSpec, denom: u32, rank: u64, acc: &mut Acc| {
+                let rt = RefTl::new(spec);
+                let tl = spec.build();
+                let mut tls = tl.clone();
+                tls.start_with(&vs);
+                acc.timelines += 2;
+                for i in 0..=denom {
+                    for t in wide_times(th, i as f32 / denom as f32) {
+                        check_eval(spec, &rt, &tl, None, t, &init, rank, acc);
+                        check_eval(spec, &rt, &tls, Some(&vs), t, &init, rank, acc);
+                    }
+                }
+            };
+            if j > 0 {
+                one(&wide_spec(j, pattern, *th), 1 << j, (2u64 << 60) | (j as u64) << 40 | (pattern as u64) << 8 | ti as u64, acc);
+            } else {
+                for (si, spec) in tall_specs(*th).iter().enumerate() {
+                    one(spec, 8, (3u64 << 60) | (spec.kfs.len() as u64) << 40 | (si as u64) << 8 | ti as u64, acc);
+                }
+            }
+        },
+        |a, b| {
+            a.sink.merge(b.sink);
+            a.timelines += b.timelines;
+            a.evals += b.evals;
+            a.exact_checks += b.exact_checks;
+            a.outcomes.extend(b.outcomes);
+        },
+    )
 }
 
 pub fn run(run: Run) -> ! {
@@ -218,13 +276,20 @@ pub fn run(run: Run) -> ! {
     );
     let mut acc = acc;
     nondyadic_end(&mut acc);
+    let wt = wide_tall_pass(run.is_thorough());
+    let wt_evals = wt.evals;
+    acc.sink.merge(wt.sink);
+    acc.timelines += wt.timelines;
+    acc.evals += wt.evals;
+    acc.exact_checks += wt.exact_checks;
     let mut cov = Map::new();
+    cov.insert("wide_and_tall_family_evaluations".into(), json!(wt_evals));
     cov.insert("states".into(), json!(acc.timelines));
     cov.insert("transitions".into(), json!(acc.evals));
     cov.insert("traces_validated_against_impl".into(), json!(acc.evals));
     cov.insert("evaluations".into(), json!(acc.evals));
     cov.insert("distinct_nontrivial".into(), json!(acc.exact_checks));
-    cov.insert("rule".into(), json!(format!("keyframe lists of size 0..={nmax} with per-property distinct positions (same alphabet as C01, incl. the variant with the f64 property d in place of a below the largest size) x 13 dyadic timing configurations (incl. Times 0/1/2/3, Infinite, reverse) x {{no start, start_with(v*)}} x exact-hit times delay+cycle*(c+p) / reversing delay+cycle*(c+p/2), delay+cycle*(c+1-p/2) for all grid positions p and cycles c<=3, t in {{0,delay/2,delay}}, every forward-pass end, and 6 after-end times (next f32 after total .. f32::MAX); every timeline is additionally evaluated wrapped in MergedTimeline::from (bit-equal); a non-dyadic companion evaluates 336 repeating timelines (cycles 0.1..2.3, delays 0..1.3, Times 1..20, reverse) at exactly the reported duration() and the 8 f32 values after it: the terminal value must be shown; non-trivial = (evaluation, property) whose position coincides with exactly one keyframe of that property, compared exactly (int) / within 4 ulp (float)")));
+    cov.insert("rule".into(), json!(format!("keyframe lists of size 0..={nmax} with per-property distinct positions (same alphabet as C01, incl. the variant with the f64 property d in place of a below the largest size) x 13 dyadic timing configurations (incl. Times 0/1/2/3, Infinite, reverse) x {{no start, start_with(v*)}} x exact-hit times delay+cycle*(c+p) / reversing delay+cycle*(c+p/2), delay+cycle*(c+1-p/2) for all grid positions p and cycles c<=3, t in {{0,delay/2,delay}}, every forward-pass end, and 6 after-end times (next f32 after total .. f32::MAX); every timeline is additionally evaluated wrapped in MergedTimeline::from (bit-equal); a non-dyadic companion evaluates 336 repeating timelines (cycles 0.1..2.3, delays 0..1.3, Times 1..20, reverse) at exactly the reported duration() and the 8 f32 values after it: the terminal value must be shown; plus the WIDE family (2^j+1 keyframes at i/2^j, j in {{4,8,16}} quick / 1..=17 thorough, two property patterns) and the TALL family (every subset of size >= 2 of {{0,1/8,..,1}}) evaluated at exactly every keyframe position in the forward, reverse and repeated pass, with and without start_with; non-trivial = (evaluation, property) whose position coincides with exactly one keyframe of that property, compared exactly (int) / within 4 ulp (float)")));
     cov.insert("exhaustive".into(), json!(true));
     cov.insert("max_keyframes".into(), json!(nmax));
     cov.insert("after_end_constancy_groups".into(), json!(acc.after_end_groups));
